@@ -203,6 +203,96 @@ def atomic_view(cfg, prior, op, view, where):
     return None
 
 
+# ------------------------------------------------------------------ two crashes in a row (monitor only)
+NDOUBLE = {'quick': 10, 'thorough': 80}
+
+
+def _pyapply(d, op):
+    d = dict(d)
+    if op[0] == 'setitem': d[op[1]] = op[2]
+    elif op[0] in ('delitem', 'pop'): d.pop(op[1], None)
+    return d
+
+
+def _canon_dict(d):
+    return sorted([kcanon(k), json.dumps(canonv(v), sort_keys=True)] for k, v in d.items())
+
+
+def double_case(a):
+    """a writer is killed inside op1, a second writer (same archive, whatever the first left behind) performs op2 - to completion or
+    killed as well -, then a fresh process reads: the contents must be one of the four dicts {S0, op1(S0), op2(S0), op2(op1(S0))}"""
+    import tempfile, shutil
+    tier, idx = a
+    r = rng('fs-double', tier, idx)
+    dirs = [c for c in CONFIGS if c[0] == 'dir']
+    kind, codec, opts = dirs[idx % len(dirs)]
+    cfg = dict(kind=kind, codec=codec, opts=opts)
+    keys = list(KEYS[codec]); r.shuffle(keys)
+    vals = VALS[codec]
+    prior = [(k, r.choice(vals)) for k in keys[:2]]
+    k0 = prior[0][0]
+    op1 = r.choice([['delitem', k0], ['pop', k0], ['setitem', keys[2], r.choice(vals)]])
+    if op1[0] == 'setitem': op2 = r.choice([['pop', k0], ['delitem', prior[1][0]]])
+    else: op2 = r.choice([['delitem', k0], ['pop', k0], ['pop', prior[1][0]]])      # (never an overwrite: that is the listed gap F19b)
+    s0 = dict(prior)
+    # variant `restore`: the key whose delete was interrupted is stored again (to completion) and deleted again (interrupted again):
+    # whatever the first interrupted delete left behind must not get in the way of the second
+    mid = None
+    if op1[0] != 'setitem' and idx % 2 == 0:
+        mid = ['setitem', k0, r.choice(vals)]; op2 = [r.choice(['delitem', 'pop']), k0]
+        s1 = _pyapply(s0, mid)
+        allowed = [_canon_dict(x) for x in (s1, _pyapply(s1, op2))]
+    else:
+        allowed = [_canon_dict(x) for x in (s0, _pyapply(s0, op1), _pyapply(s0, op2), _pyapply(_pyapply(s0, op1), op2))]
+    out = dict(cfg=cfg, prior=prior, op=[op1, mid, op2], viol=[], n=0, err=None, idx=idx)
+    base = fs_scratch(cfg, prior, op1)
+    try:
+        dry = one_crash(cfg, prior, op1, None, False)
+        if 'error' in dry: out['err'] = dry['error']; return out
+        _, idxs = norm_log(cfg, dry['log'])
+        for raw1 in idxs:
+            for kill2 in ((None, 'mid') if mid is None else (None, 1, 2, 3, 4, 5, 6, 7)):
+                tmp = tempfile.mkdtemp(prefix='c_', dir=base)
+                loc = loc_of(cfg, tmp)
+                j1 = dict(role='run', cfg=cfg, loc=loc, root=tmp, prior=pickle.dumps(prior).hex(), op=pickle.dumps(op1).hex(), kill_at=raw1, torn=False)
+                rc, _, _, tail = child(j1, tmp, 'w1')
+                if rc != 137: out['err'] = 'first writer was not killed (rc %r): %s' % (rc, tail); return out
+                k2 = None
+                if mid is not None:
+                    rcm, om, _, tailm = child(dict(role='run', cfg=cfg, loc=loc, root=tmp, prior=pickle.dumps([]).hex(), op=pickle.dumps(mid).hex(), kill_at=None, torn=False, skip_prior=True), tmp, 'wm')
+                    if rcm != 0: out['err'] = 'the restoring writer failed: %s' % tailm; return out
+                j2 = dict(role='run', cfg=cfg, loc=loc, root=tmp, prior=pickle.dumps([]).hex(), op=pickle.dumps(op2).hex(), kill_at=None, torn=False, skip_prior=True)
+                if kill2 == 'mid':
+                    # (how many gated calls op2 makes depends on what the first writer left behind: count them on a copy)
+                    cp = tempfile.mkdtemp(prefix='d_', dir=base); os.rmdir(cp); shutil.copytree(tmp, cp, symlinks=True)
+                    _, _, logd, _ = child(dict(j2, loc=loc_of(cfg, cp), root=cp), cp, 'w2d')
+                    n2 = len((logd or {}).get('log') or [])
+                    if n2 < 2: continue
+                    k2 = n2 // 2
+                elif kill2 is not None:
+                    k2 = kill2
+                rc2, o2, _, tail2 = child(dict(j2, kill_at=k2), tmp, 'w2')
+                if k2 is not None and rc2 != 137: continue            # fewer calls than on the copy: nothing to learn
+                for f in os.listdir(tmp):
+                    if f.startswith('job_'): os.remove(os.path.join(tmp, f))
+                _, rd, _, tail3 = child(dict(role='read', cfg=cfg, loc=loc, root=tmp), tmp, 'r')
+                if rd is None: out['err'] = 'reader failed: ' + tail3; return out
+                view = canon_view(cfg, rd)
+                out['n'] += 1
+                where = 'first writer killed before its call #%d of %r, %ssecond writer %s %r' % (raw1, op1, ('then %r completed, ' % (mid,)) if mid else '', ('killed before its call #%d of' % k2) if k2 is not None else 'completed', op2)
+                if 'err' in view:
+                    out['viol'].append(dict(prop='C13', i=0, sig=dict(backend='dir', what='error', double=True), msg='dir archive (%s), prior %r: %s: a fresh process cannot read the archive: %s' % (codec, prior, where, view['err'])))
+                elif sorted(view['items']) not in allowed:
+                    out['viol'].append(dict(prop='C13', i=0, sig=dict(backend='dir', what='contents', double=True), msg='dir archive (%s), prior %r: %s: the archive holds %r, which is none of the four possible dicts' % (codec, prior, where, view['items'])))
+                if out['viol']: return out
+    except Exception:
+        import traceback
+        out['err'] = traceback.format_exc()[-1500:]
+    finally:
+        rm_rf(base)
+    return out
+
+
 # ------------------------------------------------------------------ Lean model
 def model_case(cfg, prior, op, calls):
     """lines for the driver: one cfg + one `crash` op; the model answers with its program and the view of every crash state"""
@@ -325,6 +415,12 @@ def explore(prop, tier):
     tags.update(sq['tags']); viols += sq['violations']; errors += sq['errors']; divs += sq['divergences']
     gate = run_fs_sql.validate_gate(tier)
     tags.update(gate['tags']); errors += gate['errors']
+    with ThreadPool(NPROC) as p:
+        dbl = p.map(double_case, [(tier, i) for i in range(NDOUBLE[tier])])
+    for d in dbl:
+        if d['err']: errors.append(d['err']); continue
+        tags['double-crash'] += d['n']
+        for v in d['viol']: viols.append(dict(v, cfg=d['cfg'], prior=d['prior'], op=d['op'], opx=d['op'], double=dict(tier=tier, idx=d['idx'])))
     return dict(suite='fs', traces=len(trs) + sq['cases'], evaluations=sum(len(t['results']) for t in trs) + sq['kills'], distinct_nontrivial=nontriv + sq['cases'],
                 tags=dict(tags), divergences=divs, violations=viols,
                 samples=[dict(cfg=t['cfg'], prior=repr(t['prior']), op=repr(t['op']), calls=t['calls']) for t in trs[:2]],
@@ -333,6 +429,10 @@ def explore(prop, tier):
 
 
 def replay(prop, obj):
+    if 'double' in obj:
+        d = double_case((obj['double']['tier'], obj['double']['idx']))
+        if d['err']: raise NoVerdict(d['err'])
+        return dict(violations=[dict(prop='C13', sig=v['sig'], msg=v['msg'], i=0) for v in d['viol']], divergence=None)
     prior = pickle.loads(bytes.fromhex(obj['prior'])); op = pickle.loads(bytes.fromhex(obj['op']))
     tr = run_case(obj['cfg'], prior, op)
     if tr['err']: raise NoVerdict(tr['err'])
@@ -341,6 +441,8 @@ def replay(prop, obj):
 
 
 def shrink_and_save(prop, v):
+    if 'double' in v:
+        return write_replay(prop, 'violation', dict(suite='fs', property=prop, double=v['double'], readable=dict(prior=repr(v['prior']), ops=repr(v['op'])), signature=v['sig'], message=v['msg']))
     if 'sqlcase' in v:
         return write_replay(prop, 'violation', dict(suite='fs', property=prop, sqlcase=v['sqlcase'], signature=v['sig'], message=v['msg']))
     return write_replay(prop, 'violation', dict(suite='fs', property=prop, cfg=v['cfg'], prior=pickle.dumps(v['prior']).hex(), op=pickle.dumps(v['opx']).hex(),
